@@ -123,7 +123,7 @@ class Check:
         path = os.path.join(VERIF, "replays", "%s-%d.json" % (self.pid, n))
         with open(path, "w") as f:
             json.dump(dict(property=self.pid, signature=signature, what=what, payload=payload,
-                           rerun="%s %s --replay %s" % (sys.executable, os.path.join(VERIF, "check"), path)), f, indent=1)
+                           rerun="cd %s && ./check --replay %s" % (VERIF, path)), f, indent=1)
         self.confirmed.append(dict(signature=signature, what=what, known=False, replay=path))
 
     def unconfirm(self, what):
